@@ -366,6 +366,11 @@ class Gen:
             return self.gen_prim()
         if k == 'ref':
             d = t.choice(vis)
+            pct = getattr(self.cfg, 'alias_ref_pct', 0)
+            if pct and t.chance(pct):
+                al = [x for x in vis if isinstance(x, Alias)]
+                if al:
+                    d = t.choice(al)
             ref = T('ref', ns=d.ns, name=d.name)
             return ref
         if k == 'list':
@@ -444,6 +449,9 @@ class Gen:
             if cands:
                 a = self.t.choice(cands)
                 ty = T('ref', ns=a.ns, name=a.name)
+        pct = getattr(self.cfg, 'nullable_alias_pct', 0)
+        if pct and self.t.chance(pct) and not self.m.unwrap(ty)[1]:
+            ty = T('nullable', inner=ty)
         return Alias(name=name, ns=ns, type=ty, doc=self.doc({'ns': ns}, short=True), anns=[])
 
     def field_names(self, n, taken):
@@ -1020,7 +1028,7 @@ class Gen:
             for _ in range(ntypes):
                 k = t.weighted([(34, 'struct'), (26, 'union'),
                                 (40 if getattr(cfg, 'alias_bias', False) else 16, 'alias'), (12, 'child'),
-                                (8, 'tree'), (8, 'uchild')])
+                                (8, 'tree'), (getattr(cfg, 'uchild_weight', 8), 'uchild')])
                 if k == 'struct':
                     self.gen_struct(nm)
                 elif k == 'union':
@@ -1032,6 +1040,9 @@ class Gen:
                              if not d.subtypes and self.m.enum_root(d) is None]
                     if cands:
                         p = t.choice(cands)
+                        deep = [d for d in cands if d.parent is not None]
+                        if deep and getattr(cfg, 'deep_inherit_pct', 0) and t.chance(cfg.deep_inherit_pct):
+                            p = t.choice(deep)       # chains of three and more levels
                         self.gen_struct(nm, parent=(p.ns, p.name))
                     else:
                         self.gen_struct(nm)
@@ -1039,6 +1050,9 @@ class Gen:
                     cands = self.visible_types(nm, (Union,))
                     if cands:
                         p = t.choice(cands)
+                        deep = [d for d in cands if d.parent is not None]
+                        if deep and getattr(cfg, 'deep_inherit_pct', 0) and t.chance(cfg.deep_inherit_pct):
+                            p = t.choice(deep)
                         self.gen_union(nm, parent=(p.ns, p.name))
                     else:
                         self.gen_union(nm)
